@@ -318,6 +318,7 @@ def run_check(prop, tier, seed, keep=False):
         bins = None
         design = run_design(sc, cfg.get("design", []))
         fails, notes, knowns = [], [], []
+        stats = {}
         sessions = records = 0
         tstates = ttrans = 0
         samples, stage_info = [], []
@@ -345,6 +346,8 @@ def run_check(prop, tier, seed, keep=False):
             for f in v["known"]:
                 knowns.append(f + (tag,))
             notes += v["note"]
+            for k, n in v["stat"].items():
+                stats[k] = stats.get(k, 0) + n
             sessions += tr["sessions"]
             records += tr["records"]
             tstates += v["tlc"]["distinct"]
@@ -386,11 +389,11 @@ def run_check(prop, tier, seed, keep=False):
         wall = time.time() - t0
         cov = dict(states=design["states"] + tstates, transitions=design["transitions"] + ttrans,
                    traces_validated_against_impl=sessions, samples=samples[:4],
-                   evaluations=sessions, trace_records=records,
+                   evaluations=sessions, distinct_nontrivial=stats.get("nontrivial", sessions), trace_records=records, judge_stats=stats,
                    design_models=design["runs"], stages=stage_info, rule=cfg.get("rule", ""),
                    known_finding_sessions={k: len(v) for k, v in kf_hits.items()},
                    informational_notes=note_counts, exhaustive=False)
-        L.write_evidence(prop, tier, seed, "model_checking", cov, wall, nviol,
+        L.write_evidence(prop, tier, seed, cfg.get("level", "model_checking"), cov, wall, nviol,
                          ["TLC 1.8.0 and the CommunityModules Json/IOUtils overrides",
                           "harness codec: documents injected as JSON text and projected from Json(); diffs through public DiffElement/Path fields",
                           "bounded universes listed in spec/Universe.tla; hash-sampled by VERIF_SEED where not exhaustive"])
